@@ -5,6 +5,7 @@ import shutil
 import tempfile
 
 import lib
+from props import shortp8
 
 ID = 'C04'
 GEN_FILES = ['K_compress', 'K_p8png', 'K_p8png_codec']
@@ -25,6 +26,11 @@ RULE = ('one evaluation = one cart (five regions, version, Lua source) written w
         'model read_png_pixels. Monitor: extracted holds_C04_image / holds_C04_readback / holds_C04_refused on the real '
         'pixels and carts. Code sizes 0,1,...,64, ~1k, ~8k, around the plain/compressed switch, around 0x3d00 +-3 '
         'encoded bytes (plain and compressed), plain-fits-but-compressed-does-not, with/without _update60, CR inside. '
+        'Chains .p8 -> .p8.png -> .p8 on the test carts, on generated carts, and on .p8 files with SHORT sections (newer '
+        'PICO-8 versions leave out the empty tail of a data section): a generated cart whose regions end in the empty '
+        'default is written as .p8, the harness removes the trailing all-default rows of every section (sections without a '
+        'row left out altogether, with or without blank separator lines), and both the first reading and the reading at the '
+        'end of the chain must have the code and the full regions of the generated cart; plus hand-written minimal carts. '
         'distinct+non-trivial = distinct (code, version, destination kind) with non-empty code')
 ASSUMPTIONS = [
     'label source images are 160x205 8-bit RGBA PNGs (what a .p8.png is); other pixel formats are outside the property',
@@ -62,7 +68,10 @@ CLAIM = dict(
           ".p8 -> .p8.png -> .p8 succeeds at every step and preserves regions and version, the code up to the two readers' "
           "normalisations (lexer-stack facts as hypotheses); C04_p8_png_p8_lexer: the same with the lexer model and echo "
           "writer as the Lua object and every lexer-stack hypothesis discharged, for code without carriage returns "
-          "(C04_p8_png_p8_lexer_cr: with them, the re-lex of the CR->space text stays a hypothesis). PARTIAL: PNG container validity is observed at run time "
+          "(C04_p8_png_p8_lexer_cr: with them, the re-lex of the CR->space text stays a hypothesis). The chain is also "
+          "observed from .p8 files with short sections (newer PICO-8 versions leave out the empty tail of a data section; a "
+          "fix: commit makes the .p8 reader fill them up - before, such a cart lost its code as .p8.png): rows stripped by the "
+          "harness from generated carts, and hand-written minimal carts. PARTIAL: PNG container validity is observed at run time "
           "with an independent PNG reader, not proved."),
     note=("Trusted: Coq kernel+VM, translator + sub-expression hook, ExtrOcamlBasic extraction, OCaml glue, "
           "harness/pngref.py, the hand transcription of the cart image format in Spec/P8PngSpec.v, the hand-modelled "
@@ -249,6 +258,25 @@ def generate(tier, rng):
         c = nxt(lua_program(rng, n, update60=u), 'chain')
         c['chain'] = 'generated'
         yield c
+    # chains that start from a .p8 file with short sections: the regions of the cart are random in their first rows
+    # and hold the empty default after them; the harness strips the trailing default rows from the .p8 text
+    row_sets = [dict(gfx=2, map=0, gff=0, music=1, sfx=0), dict(gfx=0, map=1, gff=1, music=0, sfx=2),
+                dict(gfx=64, map=16, gff=1, music=32, sfx=32), dict(gfx=127, map=31, gff=2, music=63, sfx=63),
+                dict(gfx=1, map=32, gff=0, music=64, sfx=1), dict(gfx=0, map=0, gff=0, music=0, sfx=0)]
+    if not quick:
+        row_sets += [{sec: rng.choice([0, 1, 2, shortp8.ROWS[sec] // 2, shortp8.ROWS[sec] - 1, shortp8.ROWS[sec]])
+                      for sec in ('gfx', 'map', 'gff', 'music', 'sfx')} for _ in range(40)]
+    for i, rows in enumerate(row_sets):
+        c = nxt(lua_program(rng, rng.choice([0, 1, 40, 300, 2000])), 'chain-short',
+                regions='short:%d,%d,%d,%d,%d' % tuple(rows[x] for x in ('gfx', 'map', 'gff', 'music', 'sfx')))
+        c['chain'] = 'short'
+        c['blank'] = i % 2 == 1
+        c['drop_empty'] = i % 3 != 2
+        yield c
+    for name in sorted(shortp8.MINIMAL):
+        c = nxt(b'', 'chain-short-text')
+        c['chain'] = 'text:' + name
+        yield c
     if not quick:
         for i in range(450):
             n = rng.choice([0, 1, 2, 5, 30, 100, 400, 1500, 4000, 12000])
@@ -274,6 +302,11 @@ def corpus_cases():
     yield _case(b'print("hello hello hello hello hello hello")\n', version=0, tag='corpus-S6-version0')
     yield _case(b'--' + hi_bytes(random.Random(11), AREA + 3), tag='corpus-S5-oversize')
     yield _case(comment(literal_run(15600) + b'a' * 12), tag='corpus-S5b-plain-fits', dest='none')
+    # a .p8 cart with a two-row __gfx__ and a one-row __music__ section and nothing else: written as .p8.png its map and
+    # music landed in sprite memory and the code was lost
+    c = _case(b'', tag='corpus-short-sections')
+    c['chain'] = 'text:gfx2-music1'
+    yield c
 
 
 # ----------------------------------------------------------------------------- implementation
@@ -281,7 +314,11 @@ def _regions(kind, seed):
     rng = random.Random(seed)
     regs = []
     for i, n in enumerate(SIZES):
-        if kind == 'zero':
+        if kind.startswith('short:'):
+            # the first rows random, the rest what an empty cart holds
+            sec = ('gfx', 'map', 'gff', 'music', 'sfx')[i]
+            regs.append(shortp8.region_with_default_tail(rng, sec, int(kind[6:].split(',')[i])))
+        elif kind == 'zero':
             regs.append(bytes(n))
         elif kind == 'ff':
             regs.append(b'\xff' * n)
@@ -442,7 +479,23 @@ def _run_chain(case, g, d, obs):
     from pico8.game import file as gfile
     a, b, c = (os.path.join(d, n) for n in ('a.p8', 'b.p8.png', 'c.p8'))
     try:
-        if case['chain'] != 'generated':
+        if case['chain'] == 'short':
+            # the cart as .p8, then - as PICO-8 does when it saves - without the trailing rows that hold the default
+            gfile.to_file(g, a)
+            with open(a, 'rb') as fh:
+                whole = fh.read()
+            short, keep = shortp8.strip_default_tail(whole, blank_lines=case.get('blank', False),
+                                                     drop_empty=case.get('drop_empty', True))
+            with open(a, 'wb') as fh:
+                fh.write(short)
+            obs['rows_kept'] = keep
+            obs['p8_text'] = lib.hx(short[:400])
+            obs['intended'] = _cart_of(g)
+        elif case['chain'].startswith('text:'):
+            with open(a, 'wb') as fh:
+                fh.write(shortp8.MINIMAL[case['chain'][5:]])
+            obs['p8_text'] = lib.hx(shortp8.MINIMAL[case['chain'][5:]][:400])
+        elif case['chain'] != 'generated':
             shutil.copy(os.path.join(lib.REPO, 'tests', 'testdata', case['chain']), a)
         else:
             gfile.to_file(g, a)
@@ -528,9 +581,17 @@ def monitor_requests(case, obs):
         if 'chain_first' not in obs:
             return []
         first = ' '.join(str(x) for x in obs['chain_first'])
+        reqs = []
+        if 'intended' in obs:
+            # the first reading is the generated cart (full regions, its code); the last one too (code as first read)
+            reqs.append('readback %s %s' % (' '.join(str(x) for x in obs['intended']), first))
+            first = ' '.join(str(x) for x in obs['intended'][:5] + obs['chain_first'][5:])
+        elif [len(x) // 2 for x in obs['chain_first'][:5]] != SIZES:
+            reqs.append('readback-first-reading-has-regions-of-%s-bytes' % '-'.join(
+                str(len(x) // 2) for x in obs['chain_first'][:5]))
         if isinstance(obs['chain_last'], str):
-            return ['readback-' + obs['chain_last'].replace(' ', '-')]
-        return ['readback %s %s' % (first, ' '.join(str(x) for x in obs['chain_last']))]
+            return reqs + ['readback-' + obs['chain_last'].replace(' ', '-')]
+        return reqs + ['readback %s %s' % (first, ' '.join(str(x) for x in obs['chain_last']))]
     cart = '%s %s %d' % (' '.join(obs['regs']), obs['text'], case['version'])
     if obs['raised'] is not None:
         reqs = ['refused ' + obs['text'], 'flag %d' % (1 if obs.get('dest_intact') else 0)]
@@ -550,7 +611,7 @@ def signature(case, obs):
     if case.get('stego'):
         return 'C04/stego/%s' % case['tag']
     if case.get('chain'):
-        return 'C04/chain/%s' % case['chain']
+        return 'C04/chain/%s' % case['chain'].split(':')[0]
     if obs.get('raised') is not None:
         if not obs.get('dest_intact', True):
             return 'C04/refused/destination-modified'
@@ -564,6 +625,9 @@ def signature(case, obs):
 
 
 def what(case, obs):
+    if case.get('chain'):
+        return ('.p8 -> .p8.png -> .p8 does not preserve code and data of the cart (%s; rows of gfx,map,gff,music,sfx: %s)' % (
+            signature(case, obs), case['regions'] if case['chain'] == 'short' else case['chain']))
     return '.p8.png write/read of a cart with %d bytes of code (version %d, destination %s) violates the round trip: %s' % (
         len(lib.unhx(case['code'])), case['version'], case['dest'], signature(case, obs))
 
@@ -575,6 +639,17 @@ def describe(case, obs):
          'regions': case['regions'], 'dest': case['dest']}
     if case.get('prior'):
         d['prior'] = case['prior']
+    if case.get('chain'):
+        d['chain'] = case['chain']
+        if obs and 'p8_text' in obs:
+            d['p8_file_starts'] = lib.unhx(obs['p8_text']).decode('latin-1')
+            d['rows_kept'] = obs.get('rows_kept')
+            for key in ('chain_first', 'chain_last'):
+                if isinstance(obs.get(key), list):
+                    d[key + '_region_sizes'] = [len(x) // 2 for x in obs[key][:5]]
+                    d[key + '_code'] = lib.unhx(obs[key][5])[:60].decode('latin-1')
+                elif key in obs:
+                    d[key] = obs[key]
     if obs and not obs.get('timeout'):
         d['raised'] = obs.get('raised')
         d['png'] = obs.get('png')
